@@ -61,9 +61,11 @@ structure Facts where
   readWeightOne : Bool           -- `AcquireRead`/`ReleaseRead` use weight 1
   writeWeightRatio : Bool        -- `AcquireWrite`/`ReleaseWrite` use weight `s.rwRatio`
   wideRoutesByKey : Bool         -- all four `WideSemMap` methods go through `s.calculateKey(key)` with the same key
+  wholeBodies : Bool             -- every pinned function body equals, statement for statement (up to local names),
+                                 -- one of the texts the model was written against: nothing inserted anywhere
 deriving DecidableEq, Repr
 
-def Facts.expected : Facts := ⟨true, true, true, true, true, true, true, true, true, true, true, true, true, true⟩
+def Facts.expected : Facts := ⟨true, true, true, true, true, true, true, true, true, true, true, true, true, true, true⟩
 
 /-- configurations for which the property theorems are proved -/
 def Proved (c : Cfg) : Prop := c.guard = .emptyAndIdle
@@ -199,7 +201,14 @@ def KS.step (c : Cfg) (rw : Nat) (s : KS) : Act → KS
   | .cancel t _ => s.cancel rw t
 
 /-- when a call can be issued: a fresh caller id for acquire; release only by a holder (with the key it
-    acquired); cancel only for a caller that is waiting or holding -/
+    acquired); cancel only for a caller that is waiting or holding.
+    These are the CALLER-DISCIPLINE HYPOTHESES of every theorem (they are assumptions about the clients of the
+    package, not facts about its code — `SemMap.release` trusts `(key, w, n)` blindly):
+    * a caller releases only what it acquired, once, with the SAME key and the matching kind
+      (`ReleaseRead` after `AcquireRead`, `ReleaseWrite` after `AcquireWrite`), passing the `*Weighted` it was given;
+    * keys are valid Go map keys with reflexive equality (`k == k`, hashable): `Key := Nat` models exactly that.
+      NaN keys (never found again, never deleted) and unhashable keys (`s.m[key]` panics with the mutex held) are
+      outside the model: that is Go map semantics, not behaviour of this package. -/
 def KS.enabled (s : KS) : Act → Bool
   | .acquire t _ _ => !s.listed t
   | .release t _ => s.holds t
